@@ -244,4 +244,50 @@ partial def hConstruct (t : Ty) (v : HV) (bi : Nat) (h : Heap) : Nat × Heap :=
   let (o, b) := allocate (getBuf h bi) size
   (o, hToBuffer t v bi o (setBuf h bi b))
 end
+/-- write `size` into the size word of a dynamically sized object (Array._update keeps the stored size) -/
+def hForceSize (h : Heap) (bi : Nat) (t : Ty) (off size : Nat) : Heap :=
+  match t.ssize with
+  | some _ => h
+  | none => hwr h bi off (le 8 size)
+
+/-- assignment of a value that may be an existing object to a slot of an existing object:
+`Field.__set__` / `Array.__setitem__` → `_update` (effects kept on the error path) -/
+partial def hAssign (t : Ty) (v : HV) (bi off : Nat) (h : Heap) : Heap × Option Err :=
+  match t, v with
+  | .ref _, _ | .unionref .., _ => (hToBuffer t v bi off h, none)      -- Field.__set__ on a reference: `ftype._to_buffer`
+  | _, .plain p =>
+    let (b, e) := assign t off p (getBuf h bi)
+    (setBuf h bi b, e)
+  | _, .view sb tv so =>
+    let m := (getBuf h bi).mem
+    match t with
+    | .struct _ fs =>
+      -- Struct._update: binary copy iff same class, same size, no references; else field by field
+      let ssz := objSize (getBuf h sb).mem tv so
+      if tv.name == t.name && ssz == objSize m t off && !hasRefs t then
+        (hwr h bi off (rd (getBuf h sb).mem so ssz), none)
+      else
+        fs.foldl (fun (acc : Heap × Option Err) (n, _) =>
+          match acc.2 with
+          | some _ => acc
+          | none =>
+            match fieldAddr t (getBuf acc.1 bi).mem off n with
+            | .ok (ft, a) => hAssign ft (hvField acc.1 v t n) bi a acc.1
+            | .error e => (acc.1, some e)) (h, none)
+    | .array it shp ord =>
+      -- Array._update: shapes must match; plan; refuse if it needs more than the stored size; write with the stored size
+      let av := arrView t m off
+      let vshape := hvShape h v shp.length
+      if vshape != av.shape then (h, some .value)
+      else
+        let p := harrPlan h t v
+        if p.size > av.size then (h, some .value)
+        else
+          let ssz := objSize (getBuf h sb).mem tv so
+          let h' := if !hasRefs t && ssz == av.size then hwr h bi off (rd (getBuf h sb).mem so ssz)
+                    else hForceSize (hCompound t v bi off h) bi t off av.size
+          (h', none)
+    | _ => (h, some .value)
+  | _, _ => (h, some .value)
+
 end LayM
